@@ -213,6 +213,49 @@ def flat_cache_key(ctx, rule="DEP-cache-key"):
             struct_dep = True
         if is_call(x) and x[1][0] == "attr" and x[1][2] == "keys" and x[1][1] == ("param", "kwargs"):
             struct_dep = True
+    # --- a memo that outlives the binder (class-level or module-level container) shares staged samplers between *different* samplers:
+    #     its key must identify the sampler function itself, not only its label, sample shape and argument signature
+    cnode = ctx.p.get_class(PJ + "FlatSamplerCache")[1]
+    pmod = ctx.p.modules["genjax.pjax"]
+
+    def is_container(v):
+        return isinstance(v, (ast.Dict, ast.List, ast.Set)) or (isinstance(v, ast.Call) and isinstance(v.func, ast.Name) and v.func.id in ("dict", "list", "set", "defaultdict", "WeakKeyDictionary"))
+    shared = set()
+    for st in cnode.body:
+        if isinstance(st, ast.Assign) and is_container(st.value):
+            shared |= {("attr", SELF, t.id) for t in st.targets if isinstance(t, ast.Name)} | {("attr", N(PJ + "FlatSamplerCache"), t.id) for t in st.targets if isinstance(t, ast.Name)}
+        if isinstance(st, ast.AnnAssign) and st.value is not None and is_container(st.value) and isinstance(st.target, ast.Name):
+            shared |= {("attr", SELF, st.target.id), ("attr", N(PJ + "FlatSamplerCache"), st.target.id)}
+    for st in pmod.tree.body:
+        if isinstance(st, (ast.Assign, ast.AnnAssign)) and getattr(st, "value", None) is not None and is_container(st.value):
+            for t in (st.targets if isinstance(st, ast.Assign) else [st.target]):
+                if isinstance(t, ast.Name):
+                    shared.add(N(PJ + t.id))
+    SAMPLER_ID = (("attr", ("attr", SELF, "config"), "keyful_sampler"), ("attr", SELF, "config"))
+    for g_, k_, pl_, ln_, q_ in s.events:
+        if k_ != "store":
+            continue
+        tgt = pl_[0]
+        if tgt[0] == "idx" and tgt[1] in shared:
+            keyt = tgt[2]
+            def names_sampler(t_, parent=None):
+                # the sampler function, the whole config object (not one of its label fields), the shape-applied sampler, or an id(...) of them
+                if not isinstance(t_, tuple) or not t_:
+                    return False
+                if t_ == SAMPLER_ID[0]:
+                    return True
+                if t_ == SAMPLER_ID[1] and not (parent is not None and parent[0] == "attr" and parent[1] == t_):
+                    return True
+                if is_call(t_) and t_[1][0] == "attr" and t_[1][2] == "get_keyful_sampler_with_shape":
+                    return True
+                return any(names_sampler(c_, t_) for c_ in t_ if isinstance(c_, tuple))
+            ids = names_sampler(keyt)
+            if not ids:
+                ctx.bad(rule, "pjax.FlatSamplerCache (shared memo)", f"shared memo key = {short(keyt, ev, 120)}",
+                        f"the staged flat sampler is also stored in {short(tgt[1], ev, 60)}, a container shared by every binder, under a key that does not identify the sampler "
+                        "function: two distributions built with the same label (a factory closing over a static parameter) and equal argument signatures share one staged Jaxpr, "
+                        "so seed(f)(key, ...) draws from whichever was staged first in the process", f"{s.module.path}:{ln_}")
+                return
     only_len = not shape_dep
     if only_len:
         ctx.bad(rule, "pjax.FlatSamplerCache.get_flat_sampler", f"cache key = {short(k, ev)}",
